@@ -307,6 +307,10 @@ func writeRecordConverters(w *formatting.IndentedWriter, t *dsl.RecordDefinition
 			w.Indented(func() {
 				fmt.Fprintf(w, "it->get_to(value.%s);\n", common.FieldIdentifierName(field.Name))
 			})
+			w.WriteStringln("} else {")
+			w.Indented(func() {
+				fmt.Fprintf(w, "yardl::ndjson::ResetOmittedFieldValue(value.%s);\n", common.FieldIdentifierName(field.Name))
+			})
 			w.WriteStringln("}")
 		}
 	})
